@@ -283,6 +283,15 @@ pub fn c13(tier: Tier) -> Vec<Scenario> {
                 out.push(c13_pair(*a, *b));
             }
         }
+        // every ordered triple over the kinds that end differently
+        let core = [Step::SingleOk, Step::TimedOut, Step::AbandonFinished, Step::DirectEarly, Step::EntriesOnlyFull, Step::SearchAll, Step::Paged2, Step::PagedEarly];
+        for a in core {
+            for b in core {
+                for c in core {
+                    out.push(c13_seq(&[a, b, c], 1));
+                }
+            }
+        }
     } else {
         out.push(c13_pair(Step::SingleOk, Step::SearchAll));
         out.push(c13_pair(Step::TimedOut, Step::EntriesOnlyFull));
@@ -606,6 +615,23 @@ pub fn c12(tier: Tier) -> Vec<Scenario> {
     s.oracles = o.clone();
     out.push(s);
     if tier == Tier::Thorough {
+        // three handles: timed stream, timed single, untimed single, late replies allowed
+        let mut s = Scenario::new("C12/three-handles");
+        s.clients = vec![
+            client(vec![
+                Call::Start { marker: "s".into(), chain: Chain::EntriesOnly, timeout: Some(10), ctrl: false, opts: false, own_paging: false },
+                Call::Next,
+                Call::Next,
+                Call::Finish,
+            ]),
+            client(vec![tsingle(OpKind::Compare, "t0", 10), single(OpKind::Bind, "a1")]),
+            client(vec![single(OpKind::Delete, "b0")]),
+        ];
+        s.plans.insert("s".into(), plan_items(&[E]));
+        s.tick_budget = 3;
+        s.select_starts = vec![0, 1];
+        s.oracles = o.clone();
+        out.push(s);
         let mut s = Scenario::new("C12/two-timed-different-timeouts");
         s.clients = vec![client(vec![tsingle(OpKind::Compare, "t0", 10)]), client(vec![tsingle(OpKind::Bind, "t1", 20), single(OpKind::Delete, "b1")])];
         s.plans.insert("t0".into(), Plan { silent: true, ..Default::default() });
@@ -716,6 +742,41 @@ pub fn c04(tier: Tier) -> Vec<Scenario> {
         s.faults = vec![FaultKind::WriteErr, FaultKind::WritePartial(2)];
         s.fault_budget = 1;
         s.select_starts = vec![1];
+        s.oracles = o.clone();
+        out.push(s);
+    }
+
+    if tier == Tier::Thorough {
+        // two faults in one run
+        let mut s = Scenario::new("C04/two-faults");
+        s.clients = vec![client(vec![single(OpKind::Bind, "a0"), single(OpKind::Delete, "a1")]), client(vec![Call::Search { marker: "s".into(), timeout: None }])];
+        s.plans.insert("s".into(), plan_items(&[E]));
+        s.faults = vec![FaultKind::WritePendingOnce, FaultKind::WritePartial(5), FaultKind::Eof, FaultKind::Garbage];
+        s.fault_budget = 2;
+        s.select_starts = vec![1, 3];
+        s.oracles = o.clone();
+        out.push(s);
+        // three handles, every fault kind at every state
+        let mut s = Scenario::new("C04/three-handles");
+        s.clients = vec![
+            client(vec![single(OpKind::Compare, "a0")]),
+            client(vec![start("s", Chain::EntriesOnly), Call::Next, Call::Next, Call::Finish, single(OpKind::Bind, "b1")]),
+            client(vec![Call::Search { marker: "t".into(), timeout: None }]),
+        ];
+        s.plans.insert("s".into(), plan_items(&[E]));
+        s.plans.insert("t".into(), plan_items(&[R, E]));
+        s.faults = all.clone();
+        s.fault_budget = 1;
+        s.select_starts = vec![1, 3];
+        s.oracles = o.clone();
+        out.push(s);
+        // paged search interrupted at every state
+        let mut s = Scenario::new("C04/paged-interrupted");
+        s.clients = vec![client(vec![start("pg", Chain::EntriesPaged(1)), Call::Next, Call::Next, Call::Next, Call::Finish])];
+        s.plans.insert("pg".into(), Plan { total: 2, ..Default::default() });
+        s.faults = all.clone();
+        s.fault_budget = 1;
+        s.select_starts = vec![1, 3];
         s.oracles = o.clone();
         out.push(s);
     }
